@@ -247,6 +247,10 @@ func genDiam(o genOpts, w *bufio.Writer) {
 	for i := 0; i < o.n; i++ {
 		fmt.Fprintf(w, "diam rt %d %d\n", i%4, o.seed*1000003+uint64(i))
 	}
+	// the CHF's client functions against a scripted peer: requests and answers over the full range of every field
+	for i := 0; i < o.n/2; i++ {
+		fmt.Fprintf(w, "diam client %s %d\n", []string{"sur", "ccr"}[i%2], o.seed*7000003+uint64(i))
+	}
 	// primitive AVP data encodings (compared with the Lean codec model)
 	r := &rng{s: o.seed}
 	for i := 0; i < o.n/4; i++ {
@@ -310,6 +314,9 @@ func runDiam(line string, t []string) string {
 			return fmt.Sprintf("same %s len=%d", m.name, len(b))
 		}
 		return "DIFF " + m.name + " sent=" + a + " got=" + c
+	case len(t) == 3 && t[0] == "client":
+		// the same fidelity through the CHF's real client functions and a scripted peer (diamclientrt.go)
+		return runDiamClient(t[1], uint64(i64(t[2])))
 	case len(t) == 3 && t[0] == "prim":
 		var d datatype.Type
 		switch t[1] {
